@@ -66,36 +66,9 @@ def int_like(q):
 # C10
 # ---------------------------------------------------------------------------
 
-def check_c10(case, acc):
-    from qstrader.portcon.order_sizer.dollar_weighted import DollarWeightedCashBufferedOrderSizer as Sizer
-    broker, book, t = make_broker(case)
-    inv = case.get('invalid')
+def verify_c10(case, E, res, acc):
+    """The long-only rules on one sizing result (weights, prices, buffer, fee from `case`; equity E as observed)."""
     w = dict(case['weights'])
-    try:
-        sizer = Sizer(broker, 'P', book, cash_buffer_percentage=case['buffer'])
-    except ValueError:
-        if inv == 'bad_buffer':
-            acc.count('C10:rejections/bad_buffer')
-            return
-        raise Violation('C10', 'valid-buffer-rejected', 'buffer %r rejected' % case['buffer'], {})
-    except Exception as e:
-        raise Violation('C10', 'reject-wrong-type/%s' % type(e).__name__, 'buffer %r raised %r' % (case['buffer'], e), {})
-    if inv == 'bad_buffer':
-        raise Violation('C10', 'bad-buffer-accepted', 'cash buffer %r outside [0,1] was accepted' % case['buffer'], {})
-    E = broker.get_portfolio_total_equity('P')
-    try:
-        res = sizer(t, w)
-    except ValueError as e:
-        if inv in ('neg_weight', 'nan_price'):
-            acc.count('C10:rejections/%s' % inv)
-            return
-        raise Violation('C10', 'valid-input-rejected', 'valid sizing request raised %r' % (e,), {})
-    except Exception as e:
-        raise Violation('C10', 'raised/%s' % type(e).__name__, 'sizing raised %r' % (e,), {})
-    if inv == 'neg_weight':
-        raise Violation('C10', 'negative-weight-accepted', 'a negative weight was accepted: %s -> %s' % (w, res), {})
-    if inv == 'nan_price':
-        raise Violation('C10', 'nan-price-accepted', 'a NaN price was accepted: %s' % (res,), {})
     if set(res) != set(w):
         raise Violation('C10', 'target-keys', 'target keys %s != weight keys %s' % (sorted(res), sorted(w)), {})
     f = frate(case['fee'])
@@ -105,7 +78,7 @@ def check_c10(case, acc):
     all_zero = all(x == 0 for x in w.values())
     spent = Fraction(0)
     for a, x in w.items():
-        q = res[a]['quantity']
+        q = res[a]['quantity'] if isinstance(res[a], dict) else res[a]
         p = F(case['prices'][a])
         if not int_like(q):
             raise Violation('C10', 'non-integral', 'quantity of %s is %r (%s)' % (a, q, type(q).__name__), {})
@@ -143,39 +116,67 @@ def check_c10(case, acc):
         acc.count('C10:all_zero_weight_calls')
 
 
-# ---------------------------------------------------------------------------
-# C11
-# ---------------------------------------------------------------------------
-
-def check_c11(case, acc):
-    from qstrader.portcon.order_sizer.long_short import LongShortLeveragedOrderSizer as Sizer
+def check_c10(case, acc):
+    from qstrader.portcon.order_sizer.dollar_weighted import DollarWeightedCashBufferedOrderSizer as Sizer
     broker, book, t = make_broker(case)
     inv = case.get('invalid')
     w = dict(case['weights'])
-    L = case['leverage']
     try:
-        sizer = Sizer(broker, 'P', book, gross_leverage=L)
+        sizer = Sizer(broker, 'P', book, cash_buffer_percentage=case['buffer'])
     except ValueError:
-        if inv == 'bad_leverage':
-            acc.count('C11:rejections/bad_leverage')
+        if inv == 'bad_buffer':
+            acc.count('C10:rejections/bad_buffer')
             return
-        raise Violation('C11', 'valid-leverage-rejected', 'leverage %r rejected' % L, {})
+        raise Violation('C10', 'valid-buffer-rejected', 'buffer %r rejected' % case['buffer'], {})
     except Exception as e:
-        raise Violation('C11', 'reject-wrong-type/%s' % type(e).__name__, 'leverage %r raised %r' % (L, e), {})
-    if inv == 'bad_leverage':
-        raise Violation('C11', 'bad-leverage-accepted', 'gross leverage %r was accepted' % L, {})
+        raise Violation('C10', 'reject-wrong-type/%s' % type(e).__name__, 'buffer %r raised %r' % (case['buffer'], e), {})
+    if inv == 'bad_buffer':
+        raise Violation('C10', 'bad-buffer-accepted', 'cash buffer %r outside [0,1] was accepted' % case['buffer'], {})
     E = broker.get_portfolio_total_equity('P')
     try:
         res = sizer(t, w)
     except ValueError as e:
-        if inv == 'nan_price':
-            acc.count('C11:rejections/nan_price')
+        if inv in ('neg_weight', 'nan_price'):
+            acc.count('C10:rejections/%s' % inv)
             return
-        raise Violation('C11', 'valid-input-rejected', 'valid sizing request raised %r' % (e,), {})
+        raise Violation('C10', 'valid-input-rejected', 'valid sizing request raised %r' % (e,), {})
     except Exception as e:
-        raise Violation('C11', 'raised/%s' % type(e).__name__, 'sizing raised %r' % (e,), {})
+        raise Violation('C10', 'raised/%s' % type(e).__name__, 'sizing raised %r' % (e,), {})
+    if inv == 'neg_weight':
+        raise Violation('C10', 'negative-weight-accepted', 'a negative weight was accepted: %s -> %s' % (w, res), {})
     if inv == 'nan_price':
-        raise Violation('C11', 'nan-price-accepted', 'a NaN price was accepted: %s' % (res,), {})
+        raise Violation('C10', 'nan-price-accepted', 'a NaN price was accepted: %s' % (res,), {})
+    verify_c10(case, E, res, acc)
+    # the same sizer object is asked again: same assets, other weights (and prices), sometimes through the SAME dict
+    # object changed in place - nothing may be remembered from the previous call
+    for step in case.get('more', []):
+        if step.get('in_place'):
+            w.clear()
+            w.update(step['weights'])
+            arg = w
+        else:
+            arg = dict(step['weights'])
+        book.p.update(step['prices'])
+        sub = dict(case, weights=dict(step['weights']), prices=dict(case['prices'], **step['prices']))
+        try:
+            res = sizer(t, arg)
+        except Exception as e:
+            raise Violation('C10', 'repeat-call-raised/%s' % type(e).__name__, 'second call on the same sizer raised %r' % (e,), {})
+        try:
+            verify_c10(sub, E, res, acc)
+        except Violation as v:
+            raise Violation('C10', 'repeat-call/' + v.key, 'on a LATER call of the same sizer object%s: %s'
+                            % (' (same dict changed in place)' if step.get('in_place') else '', v.msg), {})
+        acc.count('C10:repeat_calls_checked')
+
+
+# ---------------------------------------------------------------------------
+# C11
+# ---------------------------------------------------------------------------
+
+def verify_c11(case, E, res, acc):
+    w = dict(case['weights'])
+    L = case['leverage']
     if set(res) != set(w):
         raise Violation('C11', 'target-keys', 'target keys %s != weight keys %s' % (sorted(res), sorted(w)), {})
     f = frate(case['fee'])
@@ -183,7 +184,7 @@ def check_c11(case, acc):
     zero = wsum_is_zero(gross)
     exposure = Fraction(0)
     for a, x in w.items():
-        q = res[a]['quantity']
+        q = res[a]['quantity'] if isinstance(res[a], dict) else res[a]
         p = F(case['prices'][a])
         if not int_like(q):
             raise Violation('C11', 'non-integral', 'quantity of %s is %r (%s)' % (a, q, type(q).__name__), {})
@@ -216,6 +217,144 @@ def check_c11(case, acc):
         raise Violation('C11', 'gross-exposure', 'sum |q| x price = %r exceeds L x equity x (1+f) = %r'
                         % (float(exposure), float(bound)), {})
     acc.count('C11:calls_checked')
+
+
+def check_c11(case, acc):
+    from qstrader.portcon.order_sizer.long_short import LongShortLeveragedOrderSizer as Sizer
+    broker, book, t = make_broker(case)
+    inv = case.get('invalid')
+    w = dict(case['weights'])
+    L = case['leverage']
+    try:
+        sizer = Sizer(broker, 'P', book, gross_leverage=L)
+    except ValueError:
+        if inv == 'bad_leverage':
+            acc.count('C11:rejections/bad_leverage')
+            return
+        raise Violation('C11', 'valid-leverage-rejected', 'leverage %r rejected' % L, {})
+    except Exception as e:
+        raise Violation('C11', 'reject-wrong-type/%s' % type(e).__name__, 'leverage %r raised %r' % (L, e), {})
+    if inv == 'bad_leverage':
+        raise Violation('C11', 'bad-leverage-accepted', 'gross leverage %r was accepted' % L, {})
+    E = broker.get_portfolio_total_equity('P')
+    try:
+        res = sizer(t, w)
+    except ValueError as e:
+        if inv == 'nan_price':
+            acc.count('C11:rejections/nan_price')
+            return
+        raise Violation('C11', 'valid-input-rejected', 'valid sizing request raised %r' % (e,), {})
+    except Exception as e:
+        raise Violation('C11', 'raised/%s' % type(e).__name__, 'sizing raised %r' % (e,), {})
+    if inv == 'nan_price':
+        raise Violation('C11', 'nan-price-accepted', 'a NaN price was accepted: %s' % (res,), {})
+    verify_c11(case, E, res, acc)
+    for step in case.get('more', []):
+        if step.get('in_place'):
+            w.clear()
+            w.update(step['weights'])
+            arg = w
+        else:
+            arg = dict(step['weights'])
+        book.p.update(step['prices'])
+        sub = dict(case, weights=dict(step['weights']), prices=dict(case['prices'], **step['prices']))
+        try:
+            res = sizer(t, arg)
+        except Exception as e:
+            raise Violation('C11', 'repeat-call-raised/%s' % type(e).__name__, 'second call on the same sizer raised %r' % (e,), {})
+        try:
+            verify_c11(sub, E, res, acc)
+        except Violation as v:
+            raise Violation('C11', 'repeat-call/' + v.key, 'on a LATER call of the same sizer object%s: %s'
+                            % (' (same dict changed in place)' if step.get('in_place') else '', v.msg), {})
+        acc.count('C11:repeat_calls_checked')
+
+
+# ---------------------------------------------------------------------------
+# the sizer as wired by the public entry points (QuantTradingSystem via BacktestTradingSession)
+# ---------------------------------------------------------------------------
+
+def check_wired(case, acc, prop):
+    """Size through session.qts: the configured buffer / leverage must be the one that is applied."""
+    from qsmon import sesswl
+    sesswl.hook()
+    from qstrader.trading.backtest import BacktestTradingSession
+    from qstrader.asset.universe.static import StaticUniverse
+    from qstrader.alpha_model.fixed_signals import FixedSignalsAlphaModel
+    from qstrader.broker.fee_model.zero_fee_model import ZeroFeeModel
+    from qstrader.broker.fee_model.percent_fee_model import PercentFeeModel
+    long_only = prop == 'C10'
+    book = PriceBook(dict(case['prices']))
+    fee = case['fee']
+    fm = ZeroFeeModel() if fee[0] == 'zero' else PercentFeeModel(commission_pct=fee[1], tax_pct=fee[2])
+    start, end = bw.ts('2021-03-01 00:00:00'), bw.ts('2021-03-31 23:59:00')
+    kw = {'cash_buffer_percentage': case['buffer']} if long_only else {'gross_leverage': case['leverage']}
+    sess = BacktestTradingSession(start, end, StaticUniverse(sorted(case['weights'])), FixedSignalsAlphaModel(dict(case['weights'])),
+                                  initial_cash=case['equity'], rebalance='daily', long_only=long_only, fee_model=fm,
+                                  data_handler=book, **kw)
+    tr = sesswl.Trace()
+    sesswl.CUR[0] = tr
+    try:
+        sess.qts.portfolio_construction_model(bw.ts('2021-03-03 21:00:00'))
+    finally:
+        sesswl.CUR[0] = None
+    if not tr.sizer:
+        raise Violation(prop, 'wired/no-sizing', 'the session\'s trading system never called a sizer', {})
+    dt, w_in, target = tr.sizer[-1]
+    E = sess.broker.get_portfolio_total_equity(sess.portfolio_id)
+    sub = dict(case, weights=w_in)
+    try:
+        (verify_c10 if long_only else verify_c11)(sub, E, target, acc)
+    except Violation as v:
+        raise Violation(prop, 'wired/' + v.key, 'through BacktestTradingSession(%s): %s' % (kw, v.msg), {})
+    acc.count('%s:wired_calls_checked' % prop)
+    acc.see('%s:wired_parameter_values' % prop, case['buffer'] if long_only else case['leverage'])
+
+
+def check_csv_gap(acc, prop, rng):
+    """A real CSV source whose leading rows have blank prices: sizing inside that gap must be rejected (NaN price)."""
+    import os, shutil, tempfile
+    from qsmon import datawl
+    from qstrader.data.daily_bar_csv import CSVDailyBarDataSource
+    from qstrader.data.backtest_data_handler import BacktestDataHandler
+    from qstrader.portcon.order_sizer.dollar_weighted import DollarWeightedCashBufferedOrderSizer
+    from qstrader.portcon.order_sizer.long_short import LongShortLeveragedOrderSizer
+    d = tempfile.mkdtemp(prefix='qsmon-sizer-')
+    try:
+        rows = [{'date': '2021-03-%02d' % day, 'open': None if i < 2 else 50.0 + i, 'close': None if i < 2 else 51.0 + i,
+                 'adj': None if i < 2 else 51.0 + i} for i, day in enumerate([1, 2, 3, 4, 5, 8])]
+        datawl.write_csv(os.path.join(d, 'LATE.csv'), rows, list(range(len(rows))))
+        rows2 = [{'date': '2021-03-%02d' % day, 'open': 20.0 + i, 'close': 20.5 + i, 'adj': 20.5 + i}
+                 for i, day in enumerate([1, 2, 3, 4, 5, 8])]
+        datawl.write_csv(os.path.join(d, 'OK.csv'), rows2, list(range(len(rows2))))
+        src = CSVDailyBarDataSource(d, None, adjust_prices=rng.random() < 0.5)
+        handler = BacktestDataHandler(None, data_sources=[src])
+        case = {'prices': {}, 'equity': 1e6, 'fee': ['zero']}
+        from qstrader.broker.simulated_broker import SimulatedBroker
+        from qstrader.exchange.simulated_exchange import SimulatedExchange
+        t0 = bw.ts('2021-03-01 09:00:00')
+        broker = SimulatedBroker(t0, SimulatedExchange(t0), handler, initial_funds=1e6)
+        broker.create_portfolio('P')
+        broker.subscribe_funds_to_portfolio('P', 1e6)
+        if prop == 'C10':
+            sizer = DollarWeightedCashBufferedOrderSizer(broker, 'P', handler, cash_buffer_percentage=0.05)
+            w = {'EQ:LATE': 0.5, 'EQ:OK': 0.5}
+        else:
+            sizer = LongShortLeveragedOrderSizer(broker, 'P', handler, gross_leverage=1.0)
+            w = {'EQ:LATE': -0.5, 'EQ:OK': 0.5}
+        for when in ('2021-03-01 21:00:00', '2021-03-02 14:30:00', '2021-03-02 21:00:00'):
+            try:
+                res = sizer(bw.ts(when), dict(w))
+            except ValueError:
+                acc.count('%s:rejections/nan_price_from_csv' % prop)
+                continue
+            raise Violation(prop, 'nan-price-accepted/csv-gap', 'sizing at %s, while EQ:LATE has only blank prices so far, '
+                            'returned %s instead of raising' % (when, res), {})
+        res = sizer(bw.ts('2021-03-03 21:00:00'), dict(w))     # first real price: must size
+        if res['EQ:LATE']['quantity'] == 0:
+            raise Violation(prop, 'csv-gap/no-size-after-gap', 'no quantity once prices exist: %s' % (res,), {})
+    finally:
+        shutil.rmtree(d, ignore_errors=True)
 
 
 # ---------------------------------------------------------------------------
@@ -267,6 +406,17 @@ def gen_case(rng, long_only):
             # zero NET but non-zero gross exposure
             w[assets[0]], w[assets[1]] = 0.5, -0.5
     inv = rng.random()
+    if inv >= 0.12 and rng.random() < 0.35:
+        more = []
+        for _ in range(rng.randint(1, 3)):
+            w2 = {a: wt() for a in assets}
+            if rng.random() < 0.2:
+                w2 = {a: 0.0 for a in assets}
+            if not long_only:
+                w2 = {a: (-x if rng.random() < 0.5 else x) for a, x in w2.items()}
+            p2 = {a: (bw.rand_price(rng) if rng.random() < 0.3 else prices[a]) for a in assets}
+            more.append({'weights': w2, 'prices': p2, 'in_place': rng.random() < 0.5})
+        case['more'] = more
     if inv < 0.12:
         k = rng.choice(['nan_price', 'neg_weight' if long_only else 'bad_leverage',
                         'bad_buffer' if long_only else 'nan_price'])
@@ -293,7 +443,10 @@ def signature(case, long_only):
 def run_case(case, acc, prop):
     fn = check_c10 if prop == 'C10' else check_c11
     try:
-        fn(case, acc)
+        if case.get('wired'):
+            check_wired(case, acc, prop)
+        else:
+            fn(case, acc)
     except Violation as v:
         v.witness = dict(case)
         acc.violation(v, case)
@@ -309,6 +462,13 @@ def shard(spec, acc, prop):
             acc.count('stopped_on_time_budget')
             break
         case = gen_case(rng, long_only)
+        if i % 40 == 7 and 'invalid' not in case:
+            case.pop('more', None)
+            case['wired'] = True
+            if long_only and rng.random() < 0.4:
+                case['buffer'] = rng.choice([0.0, 1.0])
+        if i % 400 == 11:
+            core.guarded(prop, acc, {'kind': 'csv-gap'}, check_csv_gap, acc, prop, rng)
         run_case(case, acc, prop)
         acc.evaluations += 1
         w = case['weights']
